@@ -63,6 +63,7 @@ func clip(s string, n int) string {
 }
 
 func runServerPlan(c pcfg, plan []step) (res pktResult) {
+	defer guard(&res)
 	res.labels = map[string]bool{}
 	fail := func(sig, format string, a ...any) pktResult {
 		res.violation = "SIG=C04/" + sig + " " + fmt.Sprintf(format, a...)
